@@ -17,6 +17,7 @@
    machine-checked). *)
 From Lal Require Import Common.LBytes Common.Res Common.LBytesRead Common.NAssoc
   Rtmp.RtmpChunk Rtmp.RtmpComposer Rtmp.RtmpAmf0 Rtmp.RtmpHandshake.
+From Lal Require Media.MediaMsgChecked.
 Open Scope N_scope.
 
 (* ASCII constants (byte lists; Coq strings are not used so that no String module is extracted) *)
@@ -53,16 +54,27 @@ Record senv := mk_env {
   e_rnd : bytes;      (* base.LalRtmpRandom1528Buf *)
   e_now : N;          (* uint32(time.Now().UnixNano()) taken by the handshake *)
   e_accept : bool;    (* OnNewRtmpPubSession / OnNewRtmpSubSession return nil *)
-  e_install : bool    (* an accepting OnNewRtmpPubSession calls SetPubSessionObserver *)
+  e_install : bool;   (* an accepting OnNewRtmpPubSession calls SetPubSessionObserver *)
+  e_trace : bool;     (* the configured log level is "trace" (lalserver.conf.json "log": {"level": 0}) *)
+  e_lastack0 : N;     (* recvLastAck when the session starts (0 in production; the harness presets it) *)
+  e_seq0 : N          (* seqNum when the session starts (0 in production) *)
 }.
 
 Record svariant := mk_sv {
   sv_av_guard : bool;    (* audio / video from a session that is not a publisher: error before the observer is called *)
   sv_uc_guard : bool;    (* doUserControl checks the body length before reading *)
-  sv_role_guard : bool   (* publish / play are refused once the session has a role *)
+  sv_role_guard : bool;  (* publish / play are refused once the session has a role *)
+  sv_connect_guard : bool;   (* connect is refused once the session has a role (C20's repair: it rewrote appName / tcUrl
+                                under readers in other goroutines) *)
+  sv_rv : rvariant;      (* the chunk composer; rv_grow_received = buffers grow with the bytes that arrive *)
+  sv_fx : MediaMsgChecked.fixes   (* the payload helpers of base/t_rtmp.go the trace logging of RunLoop calls (C05) *)
 }.
-Definition sv_fixed := mk_sv true true true.
-Definition sv_pinned := mk_sv false false false.
+Definition sv_fixed := mk_sv true true true true rv_fixed MediaMsgChecked.fixes_all.
+(* the repaired tree but for the composer's memory rule: the declared message length is reserved when the
+   header arrives, the chunk body is read in one piece, the length check comes after the read *)
+Definition sv_premem := mk_sv true true true true (mk_rv true true true) MediaMsgChecked.fixes_all.
+(* the tree before the C04 repairs (after the C08 ones) *)
+Definition sv_pinned := mk_sv false false false false (mk_rv true true true) MediaMsgChecked.fixes_pinned.
 
 (* ------------------------------------------------------------------------ *)
 (* errors a session closes with (the composer's 1..6 are the err_ constants of RtmpComposer) *)
@@ -104,8 +116,9 @@ Record sstate := mk_ss {
   ss_wto : bool;        (* connection write timeout installed *)
   ss_dbo : bool         (* DisposeByObserverFlag *)
 }.
-Definition init_sstate : sstate :=
-  mk_ss RUnknown false [] [] [] [] [] [] 0 0 0 256 false false false false.
+Definition init_sstate_at (lastack seq : N) : sstate :=
+  mk_ss RUnknown false [] [] [] [] [] [] 0 lastack seq 256 false false false false.
+Definition init_sstate : sstate := init_sstate_at 0 0.
 
 Definition set_win (s : sstate) (v : N) : sstate :=
   mk_ss (ss_role s) (ss_av s) (ss_app s) (ss_tcurl s) (ss_snrq s) (ss_sname s) (ss_rawq s) (ss_url s)
@@ -391,6 +404,10 @@ Definition mod_conn_props : M unit :=
     end.
 
 Definition do_connect (tid : Z) (b : bytes) : M unit :=
+  st0 <- mget ;;
+  _ <- (if sv_connect_guard v
+        then match ss_role st0 with RUnknown => mret tt | _ => mfail e_unexpected_msg end
+        else mret tt) ;;
   '(opa, _, _) <- mamf (read_object cfg_fixed b) ;;
   match find_string k_app opa with
   | None => st <- mget ;; _ <- mput (set_connect st [] (ss_tcurl st)) ;; mfail e_amf_not_exist
@@ -497,14 +514,14 @@ Inductive outcome :=
 (* where the input stands after the chunk that [compose_chunk] just completed
    (only needed when that chunk ended in an aggregate error after delivering
    sub-messages; in the Next case compose_chunk returns it) *)
-Definition chunk_rest (st : cstate) (l : bytes) : bytes :=
+Definition chunk_rest (rv : rvariant) (st : cstate) (l : bytes) : bytes :=
   match read_basic l with
   | Ok (fmt, csid, l1) =>
       match read_msg_header fmt (get_or_new csid st) l1 with
       | Ok (s1, l2) =>
           match read_ext_ts fmt s1 l2 with
           | Ok (s2, l3) =>
-              match read_body l3 (needed_size rv_fixed (cs_chunk st) s2) (s_rbuf s2) with
+              match read_body l3 (needed_size rv (cs_chunk st) s2) (s_rbuf s2) with
               | Some (_, l4) => l4
               | None => []
               end
@@ -514,6 +531,106 @@ Definition chunk_rest (st : cstate) (l : bytes) : bytes :=
       end
   | _ => []
   end.
+
+(* ------------------------------------------------------------------------ *)
+(* Memory: what the composer's message buffers hold (nazabytes.Buffer capacities),
+   as a lengths-only shadow of the read loop.  One entry per chunk stream id:
+   capacity of its buffer and (ghost, for the theorem) the body bytes ever
+   received on it.  Message length and bytes held come from the composer state. *)
+Record mentry := mk_me { me_cap : N; me_got : N }.
+Definition mem : Type := list (N * mentry).
+Definition mem_reserved (m : mem) : N := fold_right (fun e acc => me_cap (snd e) + acc) 0 m.
+Definition mem_streams (m : mem) : N := lenN m.
+
+(* nazabytes.roundUpPowerOfTwo for n > 128 *)
+Definition pow2_ceil (n : N) : N := 2 ^ N.log2_up n.
+(* nazabytes.Buffer.Grow(n) on a buffer with rpos = 0, wpos = len: the new capacity *)
+Definition grow_cap (cap len n : N) : N :=
+  if n <=? cap - len then cap
+  else len + (if n <=? 128 then 128 else if n <? 1048576 then pow2_ceil n else n).
+
+(* min(n, len l), walking at most n elements *)
+Fixpoint avail_upto (l : bytes) (n acc : N) {struct l} : N :=
+  if n =? 0 then acc
+  else match l with
+       | [] => acc
+       | _ :: t => avail_upto t (N.pred n) (N.succ acc)
+       end.
+
+(* the piece loop of the repaired composer, on lengths: (left, avail, len, cap, stopped).
+   Every piece is reserved (Grow) before it is read; at most 22 pieces for need < 2^32
+   (the piece size doubles from initMsgLen on), 40 iterations are plenty. *)
+Definition piece_step (st : N * N * N * N * bool) : N * N * N * N * bool :=
+  let '(lft, avail, len, cap, stopped) := st in
+  if stopped || (lft =? 0) then (lft, avail, len, cap, true)
+  else
+    let p := N.min lft (N.max len init_msg_len) in
+    let cap' := grow_cap cap len p in
+    if p <=? avail then (lft - p, avail - p, len + p, cap', false)
+    else (lft, avail, len, cap', true).
+Definition pieces_cap (need avail len cap : N) : N :=
+  let '(_, _, _, cap', _) := N.iter 40 piece_step (need, avail, len, cap, false) in cap'.
+
+Definition mem_get (csid : N) (m : mem) : mentry :=
+  match nget csid m with Some e => e | None => mk_me init_msg_len 0 end.   (* NewStream: nazabytes.NewBuffer(initMsgLen) *)
+
+(* one iteration of RunLoop *)
+Definition mem_chunk (rv : rvariant) (cst : cstate) (l : bytes) (m : mem) : mem :=
+  match read_basic l with
+  | Ok (fmt, csid, l1) =>
+      let e0 := mem_get csid m in
+      match read_msg_header fmt (get_or_new csid cst) l1 with
+      | Ok (s1, l2) =>
+          (* before the repair: stream.msg.Grow(MsgLen) when a type 0 / 1 header arrives *)
+          let cap1 := if negb (rv_grow_received rv) && (fmt <=? 1)
+                      then grow_cap (me_cap e0) (s_len s1) (h_len (s_hdr s1))
+                      else me_cap e0 in
+          match read_ext_ts fmt s1 l2 with
+          | Ok (s2, l3) =>
+              let len := s_len s2 in
+              if rv_grow_received rv && (h_len (s_hdr s2) <? len) then nset csid (mk_me cap1 (me_got e0)) m
+              else
+                let need := needed_size rv (cs_chunk cst) s2 in
+                let avail := avail_upto l3 need 0 in
+                let cap2 := if rv_grow_received rv then pieces_cap need avail len cap1
+                            else grow_cap cap1 len need in     (* ReserveBytes(neededSize) in one piece *)
+                nset csid (mk_me cap2 (me_got e0 + avail)) m
+          | _ => nset csid (mk_me cap1 (me_got e0)) m
+          end
+      | _ => nset csid e0 m
+      end
+  | _ => m
+  end.
+
+(* the chunk completed a message that is not an aggregate: its chunk stream id and the message *)
+Definition completed_plain (cst' : cstate) (l : bytes) (out : list rmsg) : option (N * rmsg) :=
+  match out, read_basic l with
+  | [msg], Ok (_, csid, _) =>
+      match get_stream csid (cs_streams cst') with
+      | Some s => if h_type (s_hdr s) =? type_aggregate then None else Some (csid, msg)
+      | None => None
+      end
+  | _, _ => None
+  end.
+
+(* stream.msg.ResetAndFree() after the callback of a plain message returned nil *)
+Definition mem_done (cst' : cstate) (l : bytes) (out : list rmsg) (m : mem) : mem :=
+  match completed_plain cst' l out with
+  | Some (csid, _) => let e := mem_get csid m in nset csid (mk_me 0 (me_got e)) m
+  | None => m
+  end.
+
+(* RunLoop's trace logging of a completed message:
+   tmpMsg.IsVideoKeySeqHeader() || tmpMsg.IsAacSeqHeader() (aggregates: neither a video nor an audio message) *)
+Definition trace_guard (fx : MediaMsgChecked.fixes) (trace : bool) (cst' : cstate) (l : bytes) (out : list rmsg) : res bool :=
+  if trace then
+    match completed_plain cst' l out with
+    | Some (_, msg) =>
+        let mm := MediaMsgChecked.mk_mmsg (h_type (m_hdr msg)) (h_ts (m_hdr msg)) (m_payload msg) in
+        MediaMsgChecked.orr (MediaMsgChecked.is_video_key_seq_header fx mm) (MediaMsgChecked.is_aac_seq_header fx mm)
+    | None => Ok false
+    end
+  else Ok false.
 
 (* replies queued during the callbacks reach the peer once the session reads again *)
 Definition commit (a : acc) : acc :=
@@ -527,25 +644,31 @@ Definition is_eof (e : N) : bool := (e =? err_eof) || (e =? err_unexpected_eof).
 (* [total] = number of bytes of the whole connection input; ReadBytesSum after a
    chunk = total - what is left (only looked at once the peer sent a Window
    Acknowledgement Size) *)
-Fixpoint sess_loop (fuel : nat) (total : N) (cst : cstate) (a : acc) (l : bytes) : outcome * acc :=
+Fixpoint sess_loop (fuel : nat) (total : N) (cst : cstate) (a : acc) (mm : mem) (l : bytes) : outcome * acc * mem :=
   match fuel with
-  | O => (OFuel, a)
+  | O => (OFuel, a, mm)
   | S f =>
-      match compose_chunk rv_fixed cst l with
+      let rv := sv_rv v in
+      let mm1 := mem_chunk rv cst l mm in
+      match compose_chunk rv cst l with
       | Next cst' out rest =>
-          let consumed := if ss_win (a_st a) =? 0 then 0 else total - lenN rest in
-          match run_cbs consumed out a with
-          | (Ok _, a') => sess_loop f total cst' (commit a') rest
-          | (Err e, a') => (OClose e, discard a')
-          | (Panic s, a') => (OPanic s, discard a')
+          match trace_guard (sv_fx v) (e_trace env) cst' l out with
+          | Panic s => (OPanic s, discard a, mm1)
+          | _ =>
+              let consumed := if ss_win (a_st a) =? 0 then 0 else total - lenN rest in
+              match run_cbs consumed out a with
+              | (Ok _, a') => sess_loop f total cst' (commit a') (mem_done cst' l out mm1) rest
+              | (Err e, a') => (OClose e, discard a', mm1)
+              | (Panic s, a') => (OPanic s, discard a', mm1)
+              end
           end
       | Stop cst' out e =>
           let consumed := if ss_win (a_st a) =? 0 then 0
-                          else match out with [] => 0 | _ => total - lenN (chunk_rest cst l) end in
+                          else match out with [] => 0 | _ => total - lenN (chunk_rest rv cst l) end in
           match run_cbs consumed out a with
-          | (Ok _, a') => if is_eof e then (OContinue e, commit a') else (OClose e, discard a')
-          | (Err e', a') => (OClose e', discard a')
-          | (Panic s, a') => (OPanic s, discard a')
+          | (Ok _, a') => if is_eof e then (OContinue e, commit a', mm1) else (OClose e, discard a', mm1)
+          | (Err e', a') => (OClose e', discard a', mm1)
+          | (Panic s, a') => (OPanic s, discard a', mm1)
           end
       end
   end.
@@ -560,7 +683,8 @@ Record sresult := mk_sres {
   r_ev : list event;        (* observer calls, oldest first *)
   r_wr : list bytes;        (* replies after the handshake, oldest first *)
   r_depth : N;
-  r_st : sstate
+  r_st : sstate;
+  r_mem : mem               (* the composer's message buffers when the session stands still *)
 }.
 
 Section Session.
@@ -568,15 +692,15 @@ Variable hmac : bytes -> bytes -> bytes.
 Variable v : svariant.
 Variable env : senv.
 
-Definition init_acc : acc := mk_acc init_sstate [] [] [] 0.
+Definition init_acc : acc := mk_acc (init_sstate_at (e_lastack0 env) (e_seq0 env)) [] [] [] 0.
 
 Definition run_session (input : bytes) : sresult :=
   match run_handshake hmac (e_now env) (e_rnd env) input with
-  | HsPanic s => mk_sres (OPanic s) [] [] [] 0 init_sstate
-  | HsShort w e => mk_sres (OContinue e) w [] [] 0 init_sstate
+  | HsPanic s => mk_sres (OPanic s) [] [] [] 0 init_sstate []
+  | HsShort w e => mk_sres (OContinue e) w [] [] 0 init_sstate []
   | HsDone simple w rest =>
-      let '(o, a) := sess_loop v env (S (length rest)) (lenN input) (init_cstate default_chunk_size) init_acc rest in
-      mk_sres o w (rev (a_ev a)) (rev (a_wr a)) (a_depth a) (a_st a)
+      let '(o, a, mm) := sess_loop v env (S (length rest)) (lenN input) (init_cstate default_chunk_size) init_acc [] rest in
+      mk_sres o w (rev (a_ev a)) (rev (a_wr a)) (a_depth a) (a_st a) mm
   end.
 
 (* Server.handleTcpConnect: RunLoop, then the end of a pub / sub session is
@@ -600,7 +724,8 @@ End Session.
 
 (* ------------------------------------------------------------------------ *)
 (* What the upper layer may see from one connection (executable specification,
-   independent of the handlers): any number of connect notifications; at most
+   independent of the handlers): any number of connect notifications, all before the
+   session gets a role; at most
    one new-session call; media only after an accepted publish; the end of the
    session is reported exactly once and exactly when a new-session call was
    accepted before; nothing after the end or after a refusal. *)
@@ -612,10 +737,8 @@ Definition astep (s : astate) (e : event) : option astate :=
   | A0, EvNewPub _ _ _ _ _ false => Some ARej
   | A0, EvNewSub _ _ _ _ _ true => Some ASub
   | A0, EvNewSub _ _ _ _ _ false => Some ARej
-  | APub, EvConnect _ _ => Some APub
   | APub, EvAv _ => Some APub
   | APub, EvDelPub => Some ADone
-  | ASub, EvConnect _ _ => Some ASub
   | ASub, EvDelSub => Some ADone
   | _, _ => None
   end.
